@@ -50,6 +50,23 @@ BDiv(a, b) == BMul(a, BInv(b))
 RECURSIVE BPow(_, _)
 BPow(a, k) == IF k = 0 THEN BOne ELSE BMul(a, BPow(a, k - 1))
 
+\* ---- integer powers as the implementation computes them (numdifftools fix 1c2a680): binary powering with ring
+\* multiplications on z, or - for a negative exponent - on the reciprocal conj(z) / (z1^2 + z2^2); no logarithm involved
+BConjInv(a) ==
+  LET di == CInv(CAdd(CMul(Z1(a), Z1(a)), CMul(Z2(a), Z2(a))))        \* 1 / (complex modulus)^2
+      p == CMul(Z1(a), di)
+      q == CMul(<<RNeg(a[3]), RNeg(a[4])>>, di)
+  IN  <<p[1], p[2], q[1], q[2]>>
+RECURSIVE PowBin(_, _, _)
+PowBin(base, k, acc) ==
+  IF k = 0 THEN acc
+  ELSE PowBin(IF k \div 2 > 0 THEN BMul(base, base) ELSE base, k \div 2, IF k % 2 = 1 THEN BMul(acc, base) ELSE acc)
+BPowInt(a, k) == IF k >= 0 THEN PowBin(a, k, BOne) ELSE PowBin(BConjInv(a), -k, BOne)
+\* ... is the k-fold product, and for negative k the power of the ring inverse (wherever the 32-bit rationals do not overflow)
+ThmPowInt(a) == \A k \in 0..5 : BValid(BPow(a, k)) /\ BValid(BPowInt(a, k)) => BPowInt(a, k) = BPow(a, k)
+ThmPowNeg(a) == Invertible(a) => /\ BConjInv(a) = BInv(a)
+                                 /\ \A k \in 1..3 : BValid(BPow(BInv(a), k)) /\ BValid(BPowInt(a, -k)) => BPowInt(a, -k) = BPow(BInv(a), k)
+
 \* the ring theorems TLC checks on a box of operands
 ThmIdemMul(a, b) == BMul(a, b) = FromIdem(<<CMul(ToIdem(a)[1], ToIdem(b)[1]), CMul(ToIdem(a)[2], ToIdem(b)[2])>>)
 ThmIdemRoundTrip(a) == FromIdem(ToIdem(a)) = a
